@@ -819,6 +819,46 @@ class Interp:
         if name == 'abort': raise Violation('abort() called', 'libassert')
         if name.startswith('_ZSt') and 'throw' in name: raise Violation('C++ exception: ' + name)
         if name == 'getenv': return 0
+        if name == '_ZNSt6thread20hardware_concurrencyEv':
+            # the number of hardware threads is part of the environment: forked over {1, 2, 16}; concrete runs use this machine's value
+            if s.concrete_syms is not None: return os.cpu_count() or 1
+            return (1, 2, 16)[s.decide(3, None)]
+        if name.startswith('_ZSt29_Rb_tree_insert_and_rebalance'):
+            # libstdc++.so function (no IR): link the node without rebalancing - every std::set/map operation is correct on any binary search tree shape
+            left, x, p, h = a[0], a[1], a[2], a[3]
+            if not all(isinstance(v, int) for v in (left, x, p, h)): raise Unsupported('symbolic red-black tree insertion')
+            st = s.mem.store; ld = s.mem.load
+            st(x + 8, 8, p); st(x + 16, 8, 0); st(x + 24, 8, 0); st(x, 4, 0)
+            if left & 1:
+                st(p + 16, 8, x)
+                if p == h: st(h + 8, 8, x); st(h + 24, 8, x); st(x, 4, 1)
+                elif p == ld(h + 16, 8): st(h + 16, 8, x)
+            else:
+                st(p + 24, 8, x)
+                if p == ld(h + 24, 8): st(h + 24, 8, x)
+            return None
+        if name in ('_ZSt18_Rb_tree_incrementPSt18_Rb_tree_node_base', '_ZSt18_Rb_tree_incrementPKSt18_Rb_tree_node_base'):
+            ld = s.mem.load; x = a[0]
+            if ld(x + 24, 8) != 0:
+                x = ld(x + 24, 8)
+                while ld(x + 16, 8) != 0: x = ld(x + 16, 8)
+            else:
+                y = ld(x + 8, 8)
+                while x == ld(y + 24, 8): x = y; y = ld(y + 8, 8)
+                if ld(x + 24, 8) != y: x = y
+            return x
+        if name in ('_ZSt18_Rb_tree_decrementPSt18_Rb_tree_node_base', '_ZSt18_Rb_tree_decrementPKSt18_Rb_tree_node_base'):
+            ld = s.mem.load; x = a[0]
+            if ld(x, 4) == 0 and ld(ld(x + 8, 8) + 8, 8) == x and ld(x + 8, 8) != 0: x = ld(x + 24, 8)
+            elif ld(x + 16, 8) != 0:
+                y = ld(x + 16, 8)
+                while ld(y + 24, 8) != 0: y = ld(y + 24, 8)
+                x = y
+            else:
+                y = ld(x + 8, 8)
+                while x == ld(y + 16, 8): x = y; y = ld(y + 8, 8)
+                x = y
+            return x
         if name in ('bcmp', 'memcmp'):
             if not all(isinstance(x, int) for x in a[:3]): raise Unsupported('symbolic ' + name)
             n = a[2]
